@@ -40,24 +40,28 @@ def filter_yaml(f, ind):
     return s
 
 
-def proc_yaml(p, limq, status):
+def proc_yaml(p, limq, status, seth):
     k, kind = p["key"], p["kind"]
     s = "  %s:\n" % k
-    if kind == "Cond":
+    if k in seth:
+        side, name, value = seth[k]
+        s += ("    processor: TransformAPICall\n    parameters:\n      - key: set\n        value:\n          '$.%s.headers[\"%s\"]': \"%s\"\n"
+              % ("request" if side == "req" else "response", name, value))
+    elif kind == "Cond":
         s += "    processor: Filter\n    parameters:\n      - key: header\n        value: \"x-%s=1\"\n" % k.lower()
     elif kind == "Plain":
         s += "    processor: UserDefinedMetrics\n    parameters:\n      - key: metric_name\n        value: \"m_%s\"\n" % k
     elif kind == "Gen":
-        s += "    processor: GenerateResponse\n    parameters:\n      - key: status\n        value: %d\n      - key: body\n        value: %s\n" % (status[k], k)
+        s += "    processor: GenerateResponse\n    parameters:\n      - key: status\n        value: %d\n      - key: body\n        value: %s\n      - key: Content-Type\n        value: text/plain\n" % (status[k], k)
     elif kind == "Lim":
         s += "    processor: Limiter\n    parameters:\n      - key: quota_id\n        value: %s\n" % limq[k]
     return s
 
 
-def flow_yaml(fl, limq, status):
+def flow_yaml(fl, limq, status, seth):
     s = "name: %s\nfilter:\n%sprocessors:\n" % (fl["name"], filter_yaml(fl, 2))
     for p in fl["procs"]:
-        s += proc_yaml(p, limq, status)
+        s += proc_yaml(p, limq, status, seth)
     s += "flow:\n"
     for d, key in (("request", "req"), ("response", "res")):
         if not fl[key]:
@@ -113,14 +117,19 @@ def rand_config(rng, n):
             q = rand_filter(rng, rng.choice(PATHS), True, False)
         q.update({"id": "q%d%d" % (n, i), "kind": kind, "max": rng.randint(1, 3), "w": rng.choice([4, 6, 8])})
         quotas.append(q)
-    flows, limq, status, st = [], {}, {}, 430
+    flows, limq, status, st, seth = [], {}, {}, 430, {}
+
+    def rset(key, side):
+        # a TransformAPICall with one "set" rule on a request / response header; two names, so that rules of different processors
+        # and flows meet on one header
+        seth[key] = [side, rng.choice(["x-s1", "x-s2"] if side == "req" else ["x-r1", "x-r2"]), rng.choice(["a", "b", "c"])]
     used = set()
     for i in range(rng.randint(1, 3)):
         path = rng.choice([p for p in PATHS if tuple(p) not in used] or PATHS)
         used.add(tuple(path))
         name = "F%d%d" % (n, i)
         k = lambda s: "%s%s" % (s, name)
-        tpl = rng.choice(["plain", "limplain", "plain"] if with_status else ["lim", "cond", "plain", "limcond", "random", "random"])
+        tpl = rng.choice(["plain", "limplain", "set", "set"] if with_status else ["lim", "cond", "plain", "limcond", "set", "setcond", "random", "random"])
         if tpl == "random":
             # a random graph over 2-4 processors of all four kinds: fan-out, several answering processors, shared targets
             keys = [k(c) for c in "ABCD"[: rng.randint(2, 4)]]
@@ -130,6 +139,24 @@ def rand_config(rng, n):
                 if kind == "Lim":
                     limq[key] = rng.choice(quotas)["id"]
             req, res = fl["req"], fl["res"]
+            # plain processors wired on one side only become set rules of that side
+            for key, kind in procs:
+                sides = {d for d, conns in (("req", req), ("res", res)) for c in conns if key in (c["f"]["n"], c["t"]["n"])}
+                if kind == "Plain" and len(sides) == 1 and rng.random() < 0.7:
+                    rset(key, sides.pop())
+        elif tpl == "set":
+            # set rules on both sides, two in a row on the request side
+            procs = [(k("S"), "Plain"), (k("T"), "Plain"), (k("R"), "Plain")]
+            rset(k("S"), "req"), rset(k("T"), "req"), rset(k("R"), "res")
+            req = [fg.conn(fg.S("start"), fg.P(k("S"))), fg.conn(fg.P(k("S")), fg.P(k("T"))), fg.conn(fg.P(k("T")), fg.S("end"))]
+            res = [fg.conn(fg.S("start"), fg.P(k("R"))), fg.conn(fg.P(k("R")), fg.S("end"))]
+        elif tpl == "setcond":
+            # a set rule, then a conditional answer whose response path passes a response-side set rule (GenerateResponse + later edit)
+            procs = [(k("S"), "Plain"), (k("C"), "Cond"), (k("G"), "Gen"), (k("R"), "Plain")]
+            rset(k("S"), "req"), rset(k("R"), "res")
+            req = [fg.conn(fg.S("start"), fg.P(k("S"))), fg.conn(fg.P(k("S")), fg.P(k("C"))), fg.conn(fg.P(k("C"), "hit"), fg.P(k("G"))),
+                   fg.conn(fg.P(k("C"), "miss"), fg.S("end"))]
+            res = [fg.conn(fg.P(k("G")), fg.P(k("R"))), fg.conn(fg.S("start"), fg.P(k("R"))), fg.conn(fg.P(k("R")), fg.S("end"))]
         elif tpl == "lim":
             q = rng.choice(quotas)["id"]
             procs = [(k("L"), "Lim"), (k("G"), "Gen")]
@@ -173,10 +200,11 @@ def rand_config(rng, n):
            "quotas": [{"id": q["id"], "kind": q["kind"], "url": render(q["pat"]), "pat": q["pat"], "m": q["m"], "h": q["h"], "q": q["q"], "s": q["s"]}
                       for q in quotas]}
     model = {"cfg": cfg, "QKind": {q["id"]: q["kind"] for q in quotas}, "QMax": {q["id"]: q["max"] for q in quotas},
-             "QW": {q["id"]: q["w"] for q in quotas}, "LimQ": limq or {"-": "-none-"}, "GenStatus": status or {"-": 0}}
+             "QW": {q["id"]: q["w"] for q in quotas}, "LimQ": limq or {"-": "-none-"}, "GenStatus": status or {"-": 0},
+             "SetH": seth or {"-": ["-", "-", "-"]}}
     files = {"quotas/quotas.yaml": quota_yaml(quotas)}
     for fl in flows:
-        files["flows/%s.yaml" % fl["name"]] = flow_yaml(fl, limq, status)
+        files["flows/%s.yaml" % fl["name"]] = flow_yaml(fl, limq, status, seth)
     conds = [p["key"] for fl in flows for p in fl["procs"] if p["kind"] == "Cond"]
     return model, files, conds
 
@@ -265,7 +293,7 @@ def spec_dir(ctx):
             for f in os.listdir(os.path.join(VERIF, "specs", sub)):
                 shutil.copy(os.path.join(VERIF, "specs", sub, f), d)
         for rel in ("c04_flow_graph/FlowGraphP.tla", "c01_fixed_window/FixedWindowP.tla", "c02_concurrency/ConcurrencyP.tla",
-                    "c03_filter_select/FilterP.tla"):
+                    "c03_filter_select/FilterP.tla", "c07_actions/ActionsP.tla"):
             shutil.copy(os.path.join(VERIF, "specs", rel), d)
     return d
 
@@ -325,7 +353,7 @@ def run(ctx):
                        "plain templates and random graphs) x seeded random histories of requests, responses, proxy errors and clock advances on one "
                        "engine; non-trivial = a history in which a Limiter refused and a transaction was answered early")
     ctx.cov["checker_cmd"] = "tlc -config GatewayTrace.cfg GatewayTrace.tla (StateDeque)"
-    ctx.cov["trusted_base"] = ["TLC 1.8", "the property specifications FilterP / FlowGraphP / FixedWindowP / ConcurrencyP as checked by C03 / C04 / C01 / C02",
+    ctx.cov["trusted_base"] = ["TLC 1.8", "the property specifications FilterP / FlowGraphP / FixedWindowP / ConcurrencyP / ActionsP as checked by C03 / C04 / C01 / C02 / C07",
                                "harness/cmd/gateway projection of generated system-flow names"]
     ctx.assumptions += ["one tick = 500 ms; fixed windows 2-4 s; no concurrency-slot expiry within a history",
                         "sequential handling of overlapping transactions (concurrency is C18's subject)", "at most one concurrency quota per configuration",
